@@ -152,6 +152,7 @@ FAMILIES = {
 }
 NSETS = {'quick': {'default': 6, 'rwms': 9, 'gfms_gf': 4, 'gfms_qtop': 6, 'sfcf_c': 6, 'sfcf_o': 6, 'hadrons': 2}, 'thorough': {'default': 12, 'rwms': 18, 'hadrons': 6}}
 PER_CFG_FILES = ('sfcf_o', 'sfcf_c', 'hadrons')
+LENIENT = ('ms_E', 'ms_qtop', 'gfms_qtop', 'gfms_gf')
 
 
 # =====================================================================================================
@@ -241,7 +242,10 @@ def judge(family, fs, call, fsobj, rel, k, path):
     else:
         total = len(fsobj.records[rel])
         cands = [('prefix', dict(limit={rep: ncomp}))]
-        if ncomp + 1 <= total:
+        # A partial record whose *used* numbers are complete is tolerated only for the readers that skip the rest of a
+        # record by design (ms.dat: arrays after the requested one; gfms: observables after the requested one).  The readers
+        # that consume whole records (rwms, ms5_xsf, sfcf appended) must not hand out anything from a partial record.
+        if ncomp + 1 <= total and family in LENIENT:
             cands.append(('prefix_plus_partial_record_with_complete_used_numbers', dict(limit={rep: ncomp + 1})))
     for lab, kw in cands:
         exp, scale, rtol = _expected(family, mod, fs, call, **kw)
